@@ -190,5 +190,12 @@ func (t *tracer) uninstall() {
 		last = n
 		time.Sleep(4 * time.Millisecond)
 	}
+	// ... and until no goroutine labelled for a connection of this scenario is left
+	for i := 0; i < 150; i++ {
+		if labelledGoroutines("wsserver")+labelledGoroutines("wsclient") == 0 {
+			break
+		}
+		time.Sleep(4 * time.Millisecond)
+	}
 	jsonrpc.VerifSetHook(nil)
 }
